@@ -1703,6 +1703,28 @@ class Parallel(Logger):
             # the rest of the function does not call `_terminate_and_reset`
             # in finally.
             if dispatch_thread_id != threading.get_ident():
+                detach_generator_exit = True
+                _parallel = self
+                # Stop dispatching right now, not when the thread below
+                # gets scheduled.
+                self._aborting = True
+
+                class _GeneratorExitThread(threading.Thread):
+                    def run(self):
+                        try:
+                            _parallel._abort()
+                            if _parallel.return_generator:
+                                _parallel._warn_exit_early()
+                        finally:
+                            _parallel._terminate_and_reset()
+                            # The run is only over now: a call made before
+                            # this point is rejected instead of being hit by
+                            # the abort of the previous one.
+                            _parallel._running = False
+
+                _GeneratorExitThread(name="GeneratorExitThread").start()
+                # Warn once the abort is under way: the warning can be
+                # turned into an error.
                 warnings.warn(
                     "A generator produced by joblib.Parallel has been "
                     "gc'ed in an unexpected thread. This behavior should "
@@ -1711,18 +1733,6 @@ class Parallel(Logger):
                     "https://github.com/joblib/joblib/issues so it can "
                     "be investigated."
                 )
-
-                detach_generator_exit = True
-                _parallel = self
-
-                class _GeneratorExitThread(threading.Thread):
-                    def run(self):
-                        _parallel._abort()
-                        if _parallel.return_generator:
-                            _parallel._warn_exit_early()
-                        _parallel._terminate_and_reset()
-
-                _GeneratorExitThread(name="GeneratorExitThread").start()
                 return
 
             # Otherwise, we are in the thread that started the dispatch: we can
@@ -1744,8 +1754,8 @@ class Parallel(Logger):
             _remaining_outputs = [] if self._exception else self._jobs
             self._jobs = collections.deque()
             self._jobs_set = set()
-            self._running = False
             if not detach_generator_exit:
+                self._running = False
                 self._terminate_and_reset()
 
         while len(_remaining_outputs) > 0:
@@ -2027,8 +2037,12 @@ class Parallel(Logger):
         with self._lock:
             # Batches that were sliced ahead by a previous call but never
             # dispatched (the call was aborted or its output generator was
-            # closed early) must not be run as part of this call.
+            # closed early) must not be run as part of this call. The same
+            # goes for a job that was registered while the generator of the
+            # previous call was being closed by another thread.
             self._ready_batches = queue.Queue()
+            self._jobs = collections.deque()
+            self._jobs_set = set()
 
         # self._effective_n_jobs should be called in the Parallel.__call__
         # thread only -- store its value in an attribute for further queries.
